@@ -142,7 +142,7 @@ def main():
         }],
         "checks": checks,
         "not_applicable": na,
-        "notes": "19 fix: commits in /repo are recorded in known_findings.json ('fixed' entries; no open finding). 99 changes seeded by independent sub-agents are kept under seeded/ with what catches them; self-tests: ./check selftest-determinism | selftest-fidelity | selftest-mutants. See DESIGN.md section 0.",
+        "notes": "19 fix: commits in /repo are recorded in known_findings.json ('fixed' entries; no open finding). 110 changes seeded by independent sub-agents are kept under seeded/ with what catches them; self-tests: ./check selftest-determinism | selftest-fidelity | selftest-mutants. See DESIGN.md section 0.",
     }
     with open(os.path.join(HERE, "MANIFEST.json"), "w") as fh:
         json.dump(manifest, fh, indent=1)
